@@ -242,6 +242,48 @@ def block_obligations(S, bounds=None):
     return obls, sorted(set(fns))
 
 
+def if_obligations(S):
+    """IfStatement::type_info: a fallible branch makes the `if` fallible (either branch can run)"""
+    obls, fns = [], []
+    f = S.method("Expression", "IfStatement", "type_info")
+    fns.append((f.name, f.text_hash))
+    ex = S.executor(oracles=ORACLES, opaque=OPAQUE + [r"merge_keep$", r"^<value::kind::Kind as Clone>::clone$", r"^<Kind as Clone>::clone$"])
+    ex.feas_timeout_ms = 200
+    paths = ex.run(f, [ex.fresh("&if_statement::IfStatement", "self"), ex.fresh("&TypeState", "state0")])
+    for n_, h in ex.stats["fns_entered"].items():
+        fns.append((n_, h))
+    n = 0
+    for pi, p in enumerate(paths):
+        role = "C02:IfStatement::type_info:fallible-branch-makes-the-if-fallible"
+        if p.outcome.kind != "ret":
+            o = Obl(f"C02:IfStatement::type_info:{p.outcome.kind}", {"C02"}, f"C02:IfStatement::type_info:{p.outcome.kind}#path{pi}", p, z3.BoolVal(False), {"msg": p.outcome.msg})
+            o.ex = ex
+            obls.append(o)
+            continue
+        fr = F(ex, p.st, ex.agg_field(p.st, p.outcome.value, 1, TD))
+        conj = []
+        for e in p.st.trace:
+            if e["kind"] in ("apply_type_info", "type_info") and e["child"] in ("self.1", "self.2.Some.0"):
+                conj.append(z3.Implies(z3.Bool(f"fallible(typedef#{e['n']}[{e['child']}])"), fr))
+        n += len(conj)
+        o = Obl(role, {"C02"}, f"{role}#path{pi}", p, z3.And(conj) if conj else z3.BoolVal(False), {"result_fallible": str(z3.simplify(fr))[:200]})
+        o.ex = ex
+        obls.append(o)
+    if n < 3:
+        raise Unencodable(f"IfStatement::type_info: only {n} branch typings observed (vacuous)")
+    return obls, sorted(set(fns))
+
+
+def if_battery():
+    N = {"accepted_never_fails": True}
+    return [
+        ({"source": ".r = 1 + { if .a == 1 { 1 } else { to_int(.b) } }\n", "event": {"a": 2, "b": "x"}}, N),
+        ({"source": ".r = 1 + { if .a == 1 { to_int(.b) } else { 1 } }\n", "event": {"a": 1, "b": "x"}}, N),
+        ({"source": ".r = to_string({ if .a == 1 { 1 } else if .a == 2 { to_int(.b) } else { 3 } })\n", "event": {"a": 2, "b": "x"}}, N),
+        ({"source": ".r = 1 + { if .a == 1 { 1 } else { 2 } }\n", "event": {"a": 2}}, {"outcome": "ok", "event_eq": {"r": {"Integer": "3"}}}),
+    ]
+
+
 def block_battery():
     N = {"accepted_never_fails": True}
     return [
